@@ -16,7 +16,8 @@ REPO = os.path.abspath(os.environ.get("VERIF_REPO", "/repo"))
 # checks normally run against /repo; VERIF_REPO=<scratch worktree> runs the same checks against another tree
 # (used to try seeded changes without touching /repo) with its own build directory
 BUILD = os.path.join(VERIF, ".build") if REPO == "/repo" else os.path.join(VERIF, ".build", "alt-" + REPO.strip("/").replace("/", "_"))
-EVIDENCE_DIR = os.path.join(VERIF, "evidence")
+# evidence of runs against another tree (seeded changes) never overwrites the evidence of /repo
+EVIDENCE_DIR = os.path.join(VERIF, "evidence") if REPO == "/repo" else os.path.join(BUILD, "evidence")
 CEX_DIR = os.path.join(BUILD, "cex")
 
 OFFLINE_ENV = {"CARGO_NET_OFFLINE": "true", "GOPROXY": "off", "PIP_NO_INDEX": "1"}
